@@ -94,6 +94,7 @@ func serveScenario(v6 bool, reads [][]byte) (outs [][]byte) {
 		var invs []invRec
 		var wg sync.WaitGroup
 		exited := make(chan struct{})
+		servePanic = ""
 		order := func(b []byte) string {
 			for i, r := range reads {
 				if len(r) >= 4 && r[0] == 0 && bytes.Equal(firstN(r[4:], 4096), b) {
@@ -121,7 +122,15 @@ func serveScenario(v6 bool, reads [][]byte) (outs [][]byte) {
 			if err != nil {
 				t.Fatal(err)
 			}
-			go func() { s.Serve(); close(exited) }()
+			go func() {
+				defer func() {
+					if x := recover(); x != nil {
+						servePanic = fmt.Sprint(x)
+					}
+					close(exited)
+				}()
+				s.Serve()
+			}()
 		} else {
 			h := func(c net.PacketConn, peer net.Addr, m *dhcpv4.DHCPv4) {
 				wg.Add(1)
@@ -137,7 +146,15 @@ func serveScenario(v6 bool, reads [][]byte) (outs [][]byte) {
 			if err != nil {
 				t.Fatal(err)
 			}
-			go func() { s.Serve(); close(exited) }()
+			go func() {
+				defer func() {
+					if x := recover(); x != nil {
+						servePanic = fmt.Sprint(x)
+					}
+					close(exited)
+				}()
+				s.Serve()
+			}()
 		}
 		_ = order
 		synctest.Wait() // the loop has consumed the script (or returned)
@@ -161,6 +178,9 @@ func serveScenario(v6 bool, reads [][]byte) (outs [][]byte) {
 				flag = 7 // Serve returned without closing the connection
 			}
 		}
+		if servePanic != "" {
+			flag = 9 // the serving loop crashed
+		}
 		outs = append(outs, []byte{flag})
 		conn.Close()
 		<-exited
@@ -168,6 +188,9 @@ func serveScenario(v6 bool, reads [][]byte) (outs [][]byte) {
 	})
 	return
 }
+
+// set when Serve panicked in the last scenario
+var servePanic string
 
 func firstN(b []byte, n int) []byte {
 	if len(b) > n {
@@ -187,6 +210,10 @@ func orderKey6(reads [][]byte, enc []byte) string {
 	}
 	in, err := m.GetInnerMessage()
 	if err != nil {
+		// a relay message without a relay-message option: the generator puts the position into the link address
+		if rm, ok := m.(*dhcpv6.RelayMessage); ok && len(rm.LinkAddr) == 16 {
+			return fmt.Sprintf("%03d%03d", rm.LinkAddr[0], rm.LinkAddr[1])
+		}
 		return "zzy"
 	}
 	return fmt.Sprintf("%03d%03d", in.TransactionID[1], in.TransactionID[2])
@@ -240,7 +267,15 @@ func genC14(r *Run) {
 				valid++
 				if v6 {
 					var w []byte
-					if r.Rng.Intn(3) == 0 {
+					if r.Rng.Intn(6) == 0 {
+						// a relay message that carries no relay-message option (accepted by the decoder), alone or nested
+						link := make([]byte, 16)
+						link[0], link[1] = byte(k>>8), byte(k)
+						w = append(append(append([]byte{12, 0}, link...), r.Addr16()...), tlvb(18, r.Bytes(3))...)
+						if r.Rng.Intn(2) == 0 {
+							w = append(append(append([]byte{12, 1}, link...), r.Addr16()...), tlvb(9, w)...)
+						}
+					} else if r.Rng.Intn(3) == 0 {
 						inner := append([]byte{byte(1 + r.Rng.Intn(11)), 0, byte(k >> 8), byte(k)}, tlvb(8, []byte{0, byte(k)})...)
 						w = inner
 						for d := r.Rng.Intn(3); d >= 0; d-- {
@@ -282,6 +317,9 @@ func genC14(r *Run) {
 		outs := serveScenario(v6, reads)
 		evals++
 		got := (len(outs) - 1) / 3
+		if outs[len(outs)-1][0] == 9 {
+			r.Fail("c14-serve-panics", trunc(Case{entry, reads}.Line(), 800), "the serving loop crashed: "+servePanic)
+		}
 		if got != expectInv {
 			r.Fail("c14-invocation-count", trunc(Case{entry, reads}.Line(), 800), fmt.Sprintf("%d handler invocations for %d decodable datagrams (%d reads)", got, expectInv, len(reads)))
 		}
